@@ -23,7 +23,14 @@ const (
 
 // VM executes the instructions in Bytecode.
 type VM struct {
+	// abort counts Abort calls. A run is aborted when the counter of the root
+	// VM differs from the value it had when Run of the root VM was entered
+	// (abortSeq), so an Abort is never erased by a Run which is starting and
+	// it reaches the child VMs whenever they are acquired or started.
 	abort        atomic.Int64
+	abortSeq     atomic.Int64
+	runAbort     *atomic.Int64
+	runAbortSeq  int64
 	sp           int
 	ip           int
 	curInsts     []byte
@@ -116,17 +123,38 @@ func (vm *VM) GetLocals(locals []Object) []Object {
 // goroutine.
 func (vm *VM) Abort() {
 	vm.pool.abort()
-	vm.abort.Store(1)
+	vm.abort.Add(1)
+}
+
+// rootVM returns the VM which the pool of child VMs belongs to or vm itself.
+func (vm *VM) rootVM() *VM {
+	if root := vm.pool.root; root != nil {
+		return root
+	}
+	return vm
 }
 
 // Aborted reports whether VM is aborted. It is safe to call this method from
 // another goroutine.
 func (vm *VM) Aborted() bool {
-	return vm.abort.Load() == 1
+	root := vm.rootVM()
+	return root.abort.Load() != root.abortSeq.Load()
 }
 
 // Run runs VM and executes the instructions until the OpReturn Opcode or Abort call.
 func (vm *VM) Run(globals Object, args ...Object) (Object, error) {
+	return vm.runSeq(vm.abort.Load(), globals, args...)
+}
+
+// runSeq runs the VM, seq is the value of the abort counter read by the caller.
+// Abort calls after the counter is read abort the run, so a caller which starts
+// the run in another goroutine must read the counter before starting it not to
+// lose an Abort call in between.
+func (vm *VM) runSeq(seq int64, globals Object, args ...Object) (Object, error) {
+	root := vm.rootVM()
+	if root == vm {
+		vm.abortSeq.Store(seq)
+	}
 	verifPoint("run.enter", vm)
 	vm.mu.Lock()
 	defer vm.mu.Unlock()
@@ -138,7 +166,8 @@ func (vm *VM) Run(globals Object, args ...Object) (Object, error) {
 	}
 
 	vm.err = nil
-	vm.abort.Store(0)
+	vm.runAbort = &root.abort
+	vm.runAbortSeq = root.abortSeq.Load()
 	vm.initGlobals(globals)
 	vm.initLocals(args)
 	vm.initCurrentFrame()
@@ -187,8 +216,9 @@ func (vm *VM) run() (rerun bool) {
 }
 
 func (vm *VM) loop() {
+	runAbort, runAbortSeq := vm.runAbort, vm.runAbortSeq
 VMLoop:
-	for vm.abort.Load() == 0 {
+	for runAbort.Load() == runAbortSeq {
 		vm.ip++
 		switch vm.curInsts[vm.ip] {
 		case OpConstant:
